@@ -200,6 +200,23 @@ class Tracer:
                     else:
                         self._operand(fn, o, seen, out)
                     return
+            # several definitions, every one of them a whole tuple (`match x { A => (true, r), B => (false, t) }`):
+            # follow that component of each
+            defs_ = du(fn).defs.get(pl['l'], [])
+            if df is None and len(defs_) > 1 and 'adt' not in proj[0] and all(
+                    d['kind'] == 'assign' and d['rv']['k'] == 'agg' and d['rv'].get('ak') == 'tuple'
+                    and proj[0]['i'] < len(d['rv']['ops']) for d in defs_):
+                rest = proj[1:]
+                for d in defs_:
+                    o = d['rv']['ops'][proj[0]['i']]
+                    if o['k'] in ('copy', 'move'):
+                        npl = {'l': o['pl']['l'], 'p': list(o['pl'].get('p', [])) + rest}
+                        if not npl['p']:
+                            del npl['p']
+                        self._place(fn, npl, seen, out)
+                    else:
+                        self._operand(fn, o, seen, out)
+                return
         for pe in pl.get('p', []):
             if pe['k'] == 'field':
                 if 'adt' in pe and 'n' in pe:
